@@ -25,7 +25,7 @@ func init() {
 		Assumptions: []string{"Tendermint consensus is a stub: one application instance, blocks are final", "the harness plays the chain observer (keyper_set table) and the execution chain head"},
 		Real:        []string{"keyper.KeyperCore.operateShuttermint (smobserver.SyncAppWithDB, ShuttermintState, handleOnChainChanges, fx.SendShutterMessages)", "app.ShutterApp", "shlib puredkg / shcrypto", "keyper/database sqlc, pgx", "ethclient"},
 		Stub:        []string{"Tendermint consensus / mempool / RPC (simtm)", "execution node (simeth)", "PostgreSQL (pgsim)", "libp2p (simnet)"},
-		QuickRuns:   400, ThoroughRuns: 40000, QuickMinimize: 30, ThoroughMinimize: 150,
+		QuickRuns:   1200, ThoroughRuns: 40000, QuickMinimize: 30, ThoroughMinimize: 150,
 	})
 }
 
